@@ -15,7 +15,6 @@
 //! and the maximum number of idle connections per host.
 
 use std::collections::HashMap;
-use std::collections::HashSet;
 use std::collections::VecDeque;
 use std::fmt;
 use std::ops::Deref;
@@ -196,7 +195,7 @@ where
         }
 
         trace!("checkout interested in pooled connections");
-        let pending_attempt = inner.connecting.contains(&token);
+        let pending_attempt = inner.connecting.contains_key(&token);
         inner.waiting.entry(token).or_default().push_back(Waiter {
             tx,
             pending_attempt,
@@ -207,14 +206,18 @@ where
             connector = None;
             Checkout::new(token, self.as_ref(), rx, connector, None, &inner.config)
         } else {
+            let mut attempt = None;
             if multiplex {
                 // Only block new connection attempts if we can multiplex on this one.
                 trace!("checkout of multiplexed connection, other connections should wait");
-                inner.connecting.insert(token);
+                let id = inner.next_attempt;
+                inner.next_attempt = inner.next_attempt.wrapping_add(1).max(1);
+                inner.connecting.insert(token, id);
+                attempt = Some(id);
             }
             trace!("connecting to host");
             Checkout::new(token, self.as_ref(), rx, connector, None, &inner.config)
-                .owning_attempt(multiplex)
+                .owning_attempt(attempt)
         }
     }
 }
@@ -251,7 +254,7 @@ where
             .idle
             .keys()
             .chain(inner.waiting.keys())
-            .chain(inner.connecting.iter())
+            .chain(inner.connecting.keys())
             .copied()
             .collect();
         tokens.sort_by_key(|t| t.verif_value());
@@ -273,7 +276,7 @@ where
                     waiters_closed: waiters
                         .map(|w| w.iter().filter(|w| w.tx.is_closed()).count())
                         .unwrap_or(0),
-                    connecting: inner.connecting.contains(&token),
+                    connecting: inner.connecting.contains_key(&token),
                 }
             })
             .collect()
@@ -388,7 +391,10 @@ where
 {
     config: Config,
 
-    connecting: HashSet<Token>,
+    /// Connection attempts other checkouts may wait for, with the id of
+    /// the attempt so that only its owner clears it again.
+    connecting: HashMap<Token, usize>,
+    next_attempt: usize,
     waiting: HashMap<Token, VecDeque<Waiter<C, B>>>,
 
     idle: HashMap<Token, IdleConnections<C, B>>,
@@ -402,7 +408,8 @@ where
     fn new(config: Config) -> Self {
         Self {
             config,
-            connecting: HashSet::new(),
+            connecting: HashMap::new(),
+            next_attempt: 1,
             waiting: HashMap::new(),
             idle: HashMap::new(),
         }
@@ -411,12 +418,13 @@ where
     /// The connection attempt other checkouts may be waiting for is over.
     ///
     /// Called by the checkout which marked the attempt as in progress. If the
-    /// attempt did not deliver a connection, the checkouts which were waiting
-    /// for it are released (their checkout resolves as unavailable) instead of
-    /// waiting forever.
-    pub(in crate::client) fn cancel_connection(&mut self, token: Token) {
-        let existed = self.connecting.remove(&token);
+    /// attempt is still the one marked (it did not deliver a connection, and no
+    /// later attempt took its place), the checkouts which were waiting for it are
+    /// released (their checkout resolves as unavailable) instead of waiting forever.
+    pub(in crate::client) fn cancel_connection(&mut self, token: Token, attempt: usize) {
+        let existed = self.connecting.get(&token) == Some(&attempt);
         if existed {
+            self.connecting.remove(&token);
             trace!("pending connection cancelled");
             if let Some(waiters) = self.waiting.get_mut(&token) {
                 waiters.retain(|waiter| !waiter.pending_attempt);
@@ -435,7 +443,7 @@ where
     /// New connection attempts will wait for this connection to complete the
     /// handshake and re-use it if possible.
     pub(in crate::client) fn connected_in_handshake(&mut self, token: Token) {
-        self.connecting.insert(token);
+        self.connecting.entry(token).or_insert(0);
     }
 }
 
